@@ -4,6 +4,7 @@ import (
 	"fmt"
 	"go/token"
 	"go/types"
+	"os"
 	"sort"
 	"strings"
 
@@ -70,6 +71,10 @@ func cmdMapOrder(P *Program) {
 					}
 				}
 				if sorted[n] {
+					if os.Getenv("GOVC_SORTED") != "" && n != "" {
+						// sites that are sorted today: printed so that each can be pinned by a flow obligation
+						fmt.Printf("SORTED\t%s\t%s\t%s\n", P.Pos(in.Pos()), fn.String(), n)
+					}
 					continue
 				}
 				hits = append(hits, hit{P.Pos(in.Pos()), shortFn(fn), n})
